@@ -384,6 +384,11 @@ func simpleChain(text string) ([]string, bool) {
 				if !afterRegexOp || len(w) < 3 || !strings.HasSuffix(w, "/") || strings.Contains(w[1:len(w)-1], "/") || strings.Contains(w, "\\") {
 					return nil, false
 				}
+				// `/*` opens a comment, also where a regex is expected (a regex cannot begin with `*`:
+				// regexp.Compile rejects it), so `a =~ /*c*/` is not a chain with a regex atom
+				if strings.HasPrefix(w, "/*") {
+					return nil, false
+				}
 				continue
 			}
 			if afterRegexOp {
